@@ -138,16 +138,23 @@ claim("C14", "proof",
       "per-block entry map, reads evaluated in the running map, phis as a prefix), then for EVERY path from the entry, of any length, every read "
       "of every non-phi statement names the version most recently assigned on that path (an element-wise update of a declared but unassigned "
       "array reads the version defined by its declaration), and every version reaching a join on some path is an argument of the phi. (2) The "
-      "construction (Model/SsaBuild.lean: the work list of insert_phi_statements, and the renaming through its scoped environment, with the numbers "
-      "of the global counter as a parameter) passes that check for every rooted CFG and every numbering (C14_construction; the join condition "
-      "without phi by the dominance-frontier argument over C15), hence has the path property (C14_construction_paths). Tie to the code: the "
-      "construction model, run on the real CFG before SSA conversion with the version numbers of the real SSA dump, must rebuild the dump (phi "
-      "statements and arguments as sets, other statements in order) or fail exactly when the real conversion fails; and every real SSA dump goes "
-      "through the verified checker plus the static clauses (unique definitions = freshness of the numbering, phis at block heads, "
-      "signals/components unversioned and locals versioned, every version declared, non-phi statements equal to the pre-SSA ones).",
-      "Lean kernel + standard axioms; abstraction of the dumps into (target, reads, element-wise update) per statement is driver code; the "
-      "the phi work list is proved to terminate within n + 2n|V| iterations (C14_worklist_terminates); correspondence is sampled.",
-      "Lean 4 proof (checker soundness for all paths; the construction model passes the checker for every CFG and numbering) + rebuilding of real SSA dumps by the model", "5 (C14)")
+      "construction, declaratively (Model/SsaBuild.lean: the work list of insert_phi_statements, and the renaming with the version map at the entry "
+      "of a block being the map at the end of its immediate dominator, numbering as a parameter) passes that check for every rooted CFG and every "
+      "numbering (C14_construction; the join condition without phi by the dominance-frontier argument over C15). (3) The construction as the code "
+      "runs it (Model/SsaWalk.lean: pre-order walk over the dominator tree with children in index order, global version counters, scoped map handed "
+      "down, phi arguments pushed at the end of each block) refines (2) with the numbering its own counters produce, up to the order of phi "
+      "arguments (SsaWalk.run_build), so its output meets the certificate conditions and has the path property for every rooted CFG with consistent "
+      "edge lists (C14_walk, C14_walk_paths); every versioned local has at most one defining statement and no statement redefines version 0 of a "
+      "parameter (C14_walk_unique_defs: the counters never hand out a (variable, version) twice, with no assumption; every site is numbered once "
+      "because the walk is over a tree); the recursion never exceeds n+1 levels and the phi work list ends within n + 2n|V| iterations. Tie to the "
+      "code: the walk model run on the real CFG before SSA conversion must produce the real SSA dump, version numbers included (phi statements and "
+      "arguments as sets), or fail exactly when the real conversion fails; the declarative model fed with the real numbers must rebuild the dump "
+      "too; every real SSA dump goes through the verified checker plus the static clauses (unique definitions, phis at block heads, "
+      "signals/components unversioned and locals versioned, every version declared, non-phi statements equal to the pre-SSA ones); the hypotheses "
+      "of the theorems (rooted graph, idom with smaller index, consistent edge lists, distinct parameters) are evaluated on every real CFG.",
+      "Lean kernel + standard axioms; abstraction of the dumps into (target, reads, element-wise update) per statement is driver code; the stack of "
+      "scopes of the environment is modelled by handing the map down to the children; correspondence is sampled.",
+      "Lean 4 proof (checker soundness for all paths; the operational walk refines the declarative construction, which passes the checker for every CFG; unique definitions) + exact reproduction of real SSA dumps by the walk model", "5 (C14)")
 
 claim("C07", "proof",
       "The graphs of the real Degree and DegreeRange functions (20 infix, 3 prefix operators on all operand degrees and all well-formed ranges, "
@@ -176,8 +183,10 @@ claim("C06", "proof",
       "level: for every expression, abstract environment and concrete environment agreeing with it, every claim propagate_values writes on "
       "any node is the value that node has (C06_expr_sound, mutual induction over all expression forms incl. the short-circuit flags), "
       "propagation changes annotations only, and a substitution keeps the environment in agreement incl. add_variable's non-constant rule "
-      "(C06_stmt_sound). Path level (C06_path_sound, C06_branch_condition; Lemmas/PathValues.lean): for every SSA CFG whose substitutions assign pairwise "
-      "different variables (SingleDef, decidable, evaluated on every real dump), every prime, every budget of passes and every state any execution can "
+      "(C06_stmt_sound). Path level (C06_path_sound, C06_branch_condition; Lemmas/PathValues.lean): for every SSA CFG in which no two claim-carrying "
+      "substitutions assign the same variable (SingleDef, decidable, evaluated on every real dump: unique definitions for versioned locals; for signals "
+      "and components it holds by construction since the pre-pass marks every unversioned variable assigned by two statements as not constant, "
+      "C06_unversioned_marked — the model of the repair of the defect found in round 3), every prime, every budget of passes and every state any execution can "
       "reach (any order and number of executions of the substitutions, a phi taking any one of its arguments, calls/arrays evaluating to anything, "
       "unassigned variables holding anything), every claim on every node of the CFG returned by the loop is right; the semantic assumption on phi "
       "(PhiComplete) is part of the step relation. Tie to the code per run: (L2) node-by-node equality of the real value annotations with the Lean "
